@@ -501,8 +501,96 @@ def opsem_rule(P, E, H):
             r.error("OPSEM: %s not decidable in the abstraction: %s" % (name, e))
     for root in OPERATORS:
         if root not in found:
-            r.error("OPSEM: anchor missing: handler triple of %s" % root)
+            try:
+                _delegation(P, E, r, root)
+            except Undecided as e:
+                r.error("OPSEM: anchor missing: handler triple of %s (%s)" % (root, e))
     return r
+
+
+def _delegation(P, E, r, root):
+    """An operator that has no handlers of its own any more but is written as a pipeline of other operators (`source.map(|_| 1).sum()`):
+    the pipeline of THEIR reference machines must produce the same shape of output (how many items, which terminal) as the operator's
+    own reference on every short script - `sum` of nothing is nothing, `count` of nothing is 0."""
+    name, refcls = OPERATORS[root]
+    ex = [b for b in P.orig.values() if b.nid == root + "::execute"]
+    if len(ex) != 1:
+        raise Undecided("no execute")
+    by_mod = {k.split("::")[1]: k for k in OPERATORS}
+    chain = []
+    for c in sorted(ex[0].calls, key=lambda c: c.bb):
+        if not c.local or not c.path.startswith("operators::"):
+            continue
+        mod = c.path.split("::")[1]
+        last = c.path.split("::")[-1]
+        if last in ("new", "clone"):
+            continue
+        if mod == root.split("::")[1]:
+            continue
+        if mod not in by_mod:
+            raise Undecided("delegates to %s, which has no reference machine" % c.path)
+        chain.append(by_mod[mod])
+    if not chain:
+        raise Undecided("neither own handlers nor a pipeline of operators")
+    refs = [OPERATORS[k][1]() for k in chain]
+    own = refcls()
+    import itertools
+    names = sorted({i for x in refs + [own] for i in x.inputs})
+
+    def run(machines, script):
+        states = [m.init for m in machines]
+        done = [False] * len(machines)
+        out = []
+
+        def feed(i, ev, inp):
+            if i == len(machines):
+                out.append(ev)
+                return
+            if done[i]:
+                return
+            m = machines[i]
+            if ev == "N":
+                tr, st2, d = m.next(states[i], inp)
+                states[i] = st2
+                done[i] = done[i] or d
+            elif ev == "C":
+                tr = m.complete(states[i])
+                done[i] = True
+            else:
+                tr = m.error(states[i])
+                done[i] = True
+            for x in tr:
+                if x[0] == "emit":
+                    feed(i + 1, "N", inp)
+                elif x[0] == "complete":
+                    feed(i + 1, "C", inp)
+                elif x[0] == "error":
+                    feed(i + 1, "E", inp)
+        for (ev, inp) in script:
+            feed(0, ev, inp)
+        return out
+    n = 0
+    for k in range(0, 4):
+        for end in ("C", "E", None):
+            for vals in itertools.product(*[[False, True]] * (len(names) * max(k, 1))) if names else [()]:
+                inps = []
+                for j in range(k):
+                    inps.append({nm: (vals[j * len(names) + q] if names else False) for q, nm in enumerate(names)})
+                script = [("N", inps[j]) for j in range(k)] + ([(end, {nm: False for nm in names})] if end else [])
+                try:
+                    a, b_ = run(refs, script), run([own], script)
+                except Exception as e:
+                    raise Undecided("reference machines cannot be composed: %s" % e)
+                n += 1
+                if a != b_:
+                    r.violate((root, "semantics", "delegation"),
+                              "%s has no handlers of its own but is the pipeline %s; for the source script [%s] that pipeline produces [%s], "
+                              "%s's definition produces [%s]" % (name, " -> ".join(c_.split("::")[1] for c_ in chain),
+                                                                   ", ".join(e_ for e_, _ in script) or "silence", ", ".join(a) or "nothing",
+                                                                   name, ", ".join(b_) or "nothing"), body=ex[0])
+                    r.instance((root, "semantics"), True, "%s as a pipeline of %s: compared on %d scripts" % (name, chain, n))
+                    return
+    r.instance((root, "semantics"), True, "%s as a pipeline of %s: same output shape on %d scripts" % (name, chain, n))
 
 
 def _explore(r, impl, ref, root, name, hb):
